@@ -77,6 +77,7 @@ func (f *Position) Call(s *slip.Scope, args slip.List, depth int) (index slip.Ob
 	sfv.setKeysItem(f, s, args, depth)
 	switch ta := args[1].(type) {
 	case nil:
+		sfv.checkBounds(s, depth, 0)
 		// nothing found
 	case slip.List:
 		index = f.inList(s, ta, depth, &sfv)
@@ -93,14 +94,8 @@ func (f *Position) Call(s *slip.Scope, args slip.List, depth int) (index slip.Ob
 }
 
 func (f *Position) inList(s *slip.Scope, seq slip.List, depth int, sfv *seqFunVars) slip.Object {
-	if len(seq) <= sfv.start {
-		return nil
-	}
-	if 0 <= sfv.end && sfv.end < len(seq) {
-		seq = seq[sfv.start:sfv.end]
-	} else {
-		seq = seq[sfv.start:]
-	}
+	sfv.checkBounds(s, depth, len(seq))
+	seq = seq[sfv.start:sfv.end]
 	d2 := depth + 1
 	if !sfv.fromEnd {
 		for i, element := range seq {
@@ -139,14 +134,8 @@ func (f *Position) inList(s *slip.Scope, seq slip.List, depth int, sfv *seqFunVa
 
 func (f *Position) inString(s *slip.Scope, seq slip.String, depth int, sfv *seqFunVars) (found slip.Object) {
 	ra := []rune(seq)
-	if len(ra) <= sfv.start {
-		return nil
-	}
-	if 0 <= sfv.end && sfv.end < len(ra) {
-		ra = ra[sfv.start:sfv.end]
-	} else {
-		ra = ra[sfv.start:]
-	}
+	sfv.checkBounds(s, depth, len(ra))
+	ra = ra[sfv.start:sfv.end]
 	d2 := depth + 1
 	var key slip.Object
 	if !sfv.fromEnd {
@@ -186,14 +175,8 @@ func (f *Position) inString(s *slip.Scope, seq slip.String, depth int, sfv *seqF
 
 func (f *Position) inOctets(s *slip.Scope, seq slip.Octets, depth int, sfv *seqFunVars) (found slip.Object) {
 	ba := []byte(seq)
-	if len(ba) <= sfv.start {
-		return nil
-	}
-	if 0 <= sfv.end && sfv.end < len(ba) {
-		ba = ba[sfv.start:sfv.end]
-	} else {
-		ba = ba[sfv.start:]
-	}
+	sfv.checkBounds(s, depth, len(ba))
+	ba = ba[sfv.start:sfv.end]
 	d2 := depth + 1
 	var key slip.Object
 	if !sfv.fromEnd {
